@@ -12,7 +12,9 @@ CLAIM = {
           "pinned tree); and what Decode returns does not depend on the three things in which two decoders at a boundary can still differ -- byte counter, buffer fill, listener "
           "log (C07_history_independence: relational proof through every function of the decoder model), so at a boundary Decode returns what a fresh decoder over the remaining "
           "stream returns (C07_same_as_fresh). Errors are compared by class with io.EOF and io.ErrUnexpectedEOF as one class (known finding eof_kind_depends_on_chunking); errors "
-          "are sticky until Reset. Per run: API histories (incl. pooled decoders whose previous reader was empty) against the model and the Go history-vs-fresh oracle.",
+          "are sticky until Reset. Reset(r, opts...) leaves exactly a new decoder on r -- byte counter, buffer, tables, clock, accumulators, error, header-once flag -- so "
+          "after Reset EVERY entry point answers as on a decoder that was never used (C07_reset_is_new, C07_after_reset_every_entry_point_as_fresh; rests on what reset() "
+          "and Reset() clear in the source, the byte counter included, translated on every run). Per run: API histories (incl. pooled decoders whose previous reader was empty) against the model and the Go history-vs-fresh oracle.",
   "note": NOTE_COMMON + " Reader = contiguous bytes.Reader (arbitrary chunkings: C08). Sequences consumed with checksums ignored whose records overrun the declared data size "
           "are outside the statement (the start of the next sequence is then undefined)."}
 
